@@ -15,7 +15,7 @@ package ucfg
 //@ ensures [val] c.i >= 0 ==> err == nil && math(result) == math(c.i)
 
 //@ func (*cfgUint).toInt
-//@ props C03
+//@ props C03 C06
 //@ mode bv
 //@ pure
 //@ requires c != nil
@@ -460,7 +460,7 @@ package ucfg
 // ---------------------------------------------------------------- C03: numeric conversion kernels
 
 //@ func (*cfgInt).toInt
-//@ props C03
+//@ props C03 C06
 //@ mode bv
 //@ pure
 //@ requires c != nil
@@ -474,7 +474,7 @@ package ucfg
 //@ ensures [val] err == nil && same(result, fps(c.i))
 
 //@ func (*cfgUint).toUint
-//@ props C03
+//@ props C03 C06
 //@ mode bv
 //@ pure
 //@ requires c != nil
@@ -488,7 +488,7 @@ package ucfg
 //@ ensures [val] err == nil && same(result, fpu(c.u))
 
 //@ func (*cfgFloat).toFloat
-//@ props C03
+//@ props C03 C06
 //@ mode bv
 //@ pure
 //@ requires c != nil
@@ -602,7 +602,7 @@ package ucfg
 //@ pred fitsUint(x uint64, bits int) := (bits == 8 ==> x <= 255) && (bits == 16 ==> x <= 65535) && (bits == 32 ==> x <= 4294967295)
 
 //@ func reifyInt
-//@ props C03 C14
+//@ props C03 C14 C06
 //@ tagged-only C14
 //@ ensures [names_setting @C14] err != nil ==> about(err) == val
 //@ ensures [has_reason @C14] err != nil ==> reasonOf(err) != nil
@@ -615,7 +615,7 @@ package ucfg
 //@ ensures [accept] toIntOk(val) && fitsInt(toIntVal(val), tbits(t)) ==> err == nil
 
 //@ func reifyUint
-//@ props C03 C14
+//@ props C03 C14 C06
 //@ tagged-only C14
 //@ ensures [names_setting @C14] err != nil ==> about(err) == val
 //@ ensures [has_reason @C14] err != nil ==> reasonOf(err) != nil
@@ -628,7 +628,7 @@ package ucfg
 //@ ensures [accept] toUintOk(val) && fitsUint(toUintVal(val), tbits(t)) ==> err == nil
 
 //@ func reifyFloat
-//@ props C03 C14
+//@ props C03 C14 C06
 //@ tagged-only C14
 //@ ensures [names_setting @C14] err != nil ==> about(err) == val
 //@ ensures [has_reason @C14] err != nil ==> reasonOf(err) != nil
@@ -830,7 +830,7 @@ package ucfg
 //@ ensures r == ctxof(self)
 
 //@ func (cfgSub).cpy :: c, ctx -> r
-//@ props C10 C15 C02
+//@ props C10 C15 C02 C01
 //@ tagged-only C02
 //@ requires c.c != nil && c.c.fields != nil
 //@ requires forall k string :: has(c.c.fields.d, k) ==> c.c.fields.d[k] != nil
@@ -1101,10 +1101,45 @@ package ucfg
 //@ requires c != nil
 //@ ensures [typed @C14] isTyped(err)
 
-//@ func raisePathErr
-//@ trusted
+//@ func raisePathErr :: reason, meta, message, path -> result
+//@ props C14
 //@ pure
-//@ ensures result != nil
+//@ ensures [typed] result != nil && typeof(result) == baseError
+//@ ensures [carries] result.(baseError).path == path && result.(baseError).reason == reason && result.(baseError).class == ErrConfig
+
+// msgPath: the text messagePath/messageMeta build: "<message> accessing '<path>'" (+ " (source:'<file>')" when the
+// value has source metadata) - string building through fmt, named, not proved.
+//@ ghost func msgPath(reason error, meta *Meta, message string, path string) string
+
+//@ func messagePath :: reason, meta, message, path -> r
+//@ props C14 C07
+//@ nonil
+//@ pure
+//@ ensures [naming !unproved] r == msgPath(reason, meta, message, path)
+
+//@ func raiseErr :: reason, message -> result
+//@ props C14 C07
+//@ pure
+//@ ensures [typed] result != nil && typeof(result) == baseError
+//@ ensures [carries] result.(baseError).reason == reason && result.(baseError).message == message && result.(baseError).class == ErrConfig
+
+// raiseValidation: a failed validator is reported as a typed error whose reason is the validator's error and whose
+// message is built from the path of the context it is given (or of the named field below it).
+//@ func raiseValidation :: ctx, meta, field, err -> result
+//@ props C14 C04 C07
+//@ requires err != nil
+//@ pure
+//@ ensures [typed] result != nil && typeof(result) == baseError && result.(baseError).reason == err && result.(baseError).class == ErrConfig
+//@ ensures [names_setting] field == "" ==> exists m string :: result.(baseError).message == msgPath(err, meta, m, pathOfCtx(ctx, "."))
+
+// unpackWith: whatever goes wrong while a value is handed to a custom Unpacker (conversion of the setting or the
+// user's Unpack method) is reported as an error of the setting itself: its path is the path of the value's context
+// (read before the user code runs) and the failure is kept as the reason.
+//@ func unpackWith :: opts, v, with -> result
+//@ props C14
+//@ norte
+//@ modifies *
+//@ ensures [names_setting] result != nil ==> typeof(result) == baseError && result.(baseError).path == pathOfCtx(old(ctxof(with)), ".") && result.(baseError).reason != nil
 
 //@ iface value.meta :: self -> r
 //@ pure
@@ -1276,9 +1311,7 @@ package ucfg
 
 // ---------------------------------------------------------------- C08: the active set is scoped (restored on every exit)
 
-// every element of a container is evaluated under a set of its own: the level handed to it is empty
 //@ iface value.reify :: self, opts -> r, err
-//@ requires opts != nil && opts.activeFields != nil && forall k string :: !has(opts.activeFields.fields, k)
 //@ modifies tree(opts)
 //@ ensures opts.activeFields == old(opts.activeFields)
 
@@ -1287,10 +1320,15 @@ package ucfg
 //@ modifies tree(opts.opts)
 //@ ensures opts.opts.activeFields == old(opts.opts.activeFields)
 
+// reifyMergeValue: the scope clause is the summary reifyMap relies on (assumed: the function is a reflect-driven
+// dispatcher); what is proved here is that every callee precondition holds at its call site - in particular
+// that a configuration is never merged into itself (C11: Unpack is a read).
 //@ func reifyMergeValue :: opts, oldValue, val -> r, err
-//@ trusted
-//@ modifies tree(opts.opts)
-//@ ensures opts.opts.activeFields == old(opts.opts.activeFields)
+//@ props C11
+//@ norte
+//@ requires opts.opts != nil
+//@ modifies *
+//@ ensures [scope !unproved] opts.opts.activeFields == old(opts.opts.activeFields)
 
 //@ func reifyMap$1
 //@ props C08
@@ -1311,10 +1349,13 @@ package ucfg
 //@ modifies deref(opts).activeFields
 //@ ensures [restore] deref(opts).activeFields == deref(parentFields)
 
+// every element of a container is evaluated under a set of its own: the level handed to it is empty
+// (an obligation at each of the four call sites, not a general precondition of value.reify)
 //@ func (cfgSub).reify :: c, opts -> r, err
 //@ props C08
 //@ norte
 //@ requires opts != nil && c.c != nil && c.c.fields != nil
+//@ at-call iface:value.reify requires opts != nil && opts.activeFields != nil && forall k string :: !has(opts.activeFields.fields, k)
 //@ modifies *
 //@ ensures [scope] opts.activeFields == old(opts.activeFields)
 
@@ -1499,6 +1540,22 @@ package ucfg
 //@ ensures [scalar_is_itself] rvKind(v) != 22 && rvKind(v) != 20 ==> r == v
 //@ loop 1 invariant rvKind(entry(v)) != 22 && rvKind(entry(v)) != 20 ==> v == entry(v)
 
+//@ func chaseValuePointers :: v -> r
+//@ props C11
+//@ pure
+//@ ensures [stops] rvKind(r) != 22 || rvNil(r)
+//@ ensures [non_pointer_is_itself] rvKind(v) != 22 ==> r == v
+//@ loop 1 invariant rvKind(entry(v)) != 22 ==> v == entry(v)
+
+//@ func chaseTypePointers :: t -> r
+//@ props C11
+//@ requires t != nil
+//@ pure
+//@ ensures [stops] rtKind(r) != 22
+//@ ensures [non_pointer_is_itself] rtKind(t) != 22 ==> r == t
+//@ loop 1 invariant t != nil
+//@ loop 1 invariant rtKind(entry(t)) != 22 ==> t == entry(t)
+
 //@ func normalizeValue :: opts, tagOpts, ctx, v -> r, err
 //@ props C06 C07
 //@ norte assert nil
@@ -1609,6 +1666,27 @@ package ucfg
 //@ ensures [uint] v != nil && typeof(v) != time.Duration && 7 <= anyKind(v) && anyKind(v) <= 11 ==> (result == nil) == (anyUint(v) != 0)
 //@ ensures [float] v != nil && typeof(v) != time.Duration && (anyKind(v) == 13 || anyKind(v) == 14) ==> (result == nil) == !(anyFloat(v) == 0)
 
+// recValid(v): the recursive validation of the value behind a reflect handle accepts it (validate tags of nested
+// fields, Validate() methods). Assumed to be a function of the handle while one container is traversed (elements
+// are disjoint storage). The traversal obligation: every element that is not taken from the configuration - a
+// pre-filled default kept by the merge policy - is validated before the container is returned.
+//@ ghost func recValid(v reflect.Value) bool
+
+//@ func tryRecursiveValidate :: val, opts, validators -> result
+//@ props C04 C07
+//@ sweep
+//@ modifies *
+//@ ensures [naming !unproved] validators == nil ==> (result == nil) == recValid(val)
+
+//@ func reifyDoArray :: opts, to, elemT, start, val, arr -> r, err
+//@ props C04 C07
+//@ sweep
+//@ requires 0 <= start && start + len(arr) < 9223372036854775807
+//@ modifies *
+//@ ensures [kept_elements_validated] err == nil ==> forall j int :: 0 <= j && j < rvLen(to) && !(start <= j && j < start + len(arr)) ==> recValid(rvIndex(to, j))
+//@ loop 1 invariant 0 <= idx
+//@ loop 1 invariant forall j int :: 0 <= j && j < idx && !(start <= j && j < start + len(arr)) ==> recValid(rvIndex(to, j))
+
 //@ func runValidators :: val, validators -> result
 //@ props C04
 //@ dynpure
@@ -1617,3 +1695,14 @@ package ucfg
 //@ ensures [first_reject] result != nil ==> exists j int :: 0 <= j && j < len(validators) && result == dyn0(validators[j].cb, error, val, validators[j].param) && forall i int :: 0 <= i && i < j ==> dyn0(validators[i].cb, error, val, validators[i].param) == nil
 //@ loop 1 invariant -1 <= rangeindex && rangeindex < len(validators)
 //@ loop 1 invariant forall j int :: 0 <= j && j <= rangeindex ==> dyn0(validators[j].cb, error, val, validators[j].param) == nil
+
+// ---------------------------------------------------------------- C11: Unpack never merges a configuration into itself
+
+// mergeFieldConfig is the one-line wrapper through which Unpack merges a setting into a *Config field.
+// Merging a configuration into itself is outside the contract of the merge functions (arrOK/dictOK
+// exclude aliasing): the caller has to rule it out.
+//@ func mergeFieldConfig
+//@ trusted
+//@ requires to != from
+//@ modifies tree(to)
+//@ ensures result == nil ==> mergedInto(to, from, opts.opts)
